@@ -30,8 +30,8 @@ except Exception:      # noqa: BLE001 - optional part of the zoo
     multidoing = None
 
 PID = "C28"
-RULE = ("cases: (class from a zoo of 12+ data classes over RawDom/RegDom/TymeDom/IceRawDom/IceRegDom/IceTymeDom and the "
-        "tree's Bag, IceBag, AckDom/AddrDom/MemoDom/BokDom, field values); values drawn from None, bools, ints in "
+RULE = ("cases: (class from a zoo of 17 data classes over RawDom/RegDom/TymeDom/IceRawDom/IceRegDom/IceTymeDom and the "
+        "tree's Bag, IceBag, AckDom/AddrDom/MemoDom/BokDom, field values); values (also in fields whose declared default is not None, and None in typed fields) drawn from None, bools, ints in "
         "[-2**63, 2**64-1], finite floats, surrogate-free unicode strings, lists and string-keyed dicts of those, nested "
         "data objects in fields typed by their class; non-trivial = the object holds a nested data object or a nested "
         "container (list/dict inside list/dict); distinct = canonical hash of (class, values)")
@@ -119,7 +119,33 @@ class ZFlat(TymeDom):
         return hash((self.__class__.__name__,))
 
 
-ZOO = {c.__name__: c for c in (ZInner, ZIceInner, ZMid, ZOuter, ZIceReg, ZIceTyme, ZFlat, bagging.Bag, bagging.IceBag)}
+@namify
+@registerify
+@dataclass
+class ZDefaults(TymeDom):
+    """generic fields whose declared defaults are not None"""
+    retries: Any = 3
+    label: Any = "x"
+    opts: Any = field(default_factory=lambda: [1, 2])
+    conf: Any = field(default_factory=lambda: {"k": "v"})
+    on: Any = True
+    inner: ZInner = field(default_factory=lambda: ZInner(a=7, s="seven", f=7.5, v=[7]))
+
+    def __hash__(self):
+        return hash((self.__class__.__name__,))
+
+
+@registerify
+@dataclass(frozen=True)
+class ZIceDefaults(IceRegDom):
+    retries: Any = 3
+    label: Any = "x"
+    ratio: Any = 0.5
+    on: Any = False
+
+
+ZOO = {c.__name__: c for c in (ZInner, ZIceInner, ZMid, ZOuter, ZIceReg, ZIceTyme, ZFlat, ZDefaults, ZIceDefaults,
+                               bagging.Bag, bagging.IceBag)}
 if multidoing is not None:
     # CrewDom is left out: its default boss field is a namedtuple, outside the common domain of the codecs
     for _n in ("AddrDom", "AckDom", "MemoDom", "BokDom", "EndDom", "HandDom"):
@@ -305,6 +331,8 @@ def spec_strategy(name):
             s = st.one_of(st.none(), st.booleans())
         else:
             s = VALUE
+        if not kind.startswith("dom:") and kind != "any":
+            s = st.one_of(s, s, s, st.none())        # a typed field holding None is still a representable value
         parts[fname] = s
     # each field present or left to its default
     return st.fixed_dictionaries({"cls": st.just(name),
@@ -314,7 +342,7 @@ def spec_strategy(name):
 def _strategy():
     names = sorted(ZOO)
     # weight the classes with nested data objects
-    weighted = names + ["ZOuter", "ZOuter", "ZMid", "ZIceTyme", "ZIceReg"] + (["AckDom"] if "AckDom" in ZOO else [])
+    weighted = names + ["ZOuter", "ZOuter", "ZMid", "ZIceTyme", "ZIceReg", "ZDefaults", "ZDefaults", "ZIceDefaults"] + (["AckDom"] if "AckDom" in ZOO else [])
     return st.sampled_from(weighted).flatmap(
         lambda n: st.fixed_dictionaries({"obj": spec_strategy(n), "json_as_str": st.booleans()}))
 
